@@ -171,8 +171,14 @@ class Gen:
             elif x < 0.74 and 'send' in self.features:
                 body.append(['send', rng.choice([None, -1, 0, 0, 1e-9, 0.2, 3]),
                              rid * 1000 + len(body)])
+                if rng.random() < 0.2:
+                    # the very same bundle once more in the same wake-up (a doubled
+                    # note): byte-identical, same time - still two bundles
+                    body.append(list(body[-1]))
             elif x < 0.78 and 'send' in self.features:
                 body.append(['msg', rid * 1000 + len(body)])
+                if rng.random() < 0.2:
+                    body.append(list(body[-1]))
             elif x < 0.86 and 'rand' in self.features:
                 name = rng.choice(['rand', 'rand2', 'linrand', 'bilinrand', 'sum3rand',
                                    'coin', 'rrand', 'exprand', 'choice', 'shuffle',
